@@ -28,7 +28,10 @@ CLAIM = {
             "the prefixes of different classes differ; (R11.6) every write transaction of the on-disk store is committed with redb's "
             "default (immediate) durability: no set_durability call lowers it, so a write that was acknowledged has been synced; (R11.7) transactional (cloud-staged) store: what a request's "
             "transaction reported in prepare is exactly what commit applies to the local store - the whole commit log, deletes "
-            "(tombstones) included - and nothing else writes the local store (same obligations as C16 R16.3). Does not decide value equality after a JSON round trip nor the cloud prepare/commit window (C16).",
+            "(tombstones) included - and nothing else writes the local store (same obligations as C16 R16.3); (R11.8) `the same ... channel monitors`: the "
+            "restart re-registers every ready channel's monitor with the stored state and ListenSlot as one value - no freshly built "
+            "monitor or slot on the restore path (same obligations as C14 R14.9) - and the stored tracker entry holds every "
+            "listener of the live tracker (R11.2: no dropping adaptor). Does not decide value equality after a JSON round trip nor the cloud prepare/commit window (C16).",
     "note": "storage layer below Persist trusted; serde derive honours attributes; CHA for dyn Persist",
     "technique": "static analysis: persist-before-acknowledge dataflow (mutation summaries + must-pass persister completion) "
                  "+ persist/restore sibling agreement",
@@ -75,6 +78,7 @@ def run(ctx):
     r115(ctx)
     r116(ctx)
     r117(ctx)
+    r118(ctx)
 
 
 def r111(ctx, classes=None):
@@ -279,6 +283,12 @@ def r112(ctx):
     ctx.floor("R11.2", "Channel literal in new_from_persistence", n, 1)
 
 
+# (entry type, field) -> why a partial image of the source is the whole information
+_PARTIAL_OK = {("NodeStateEntry", "preimages"): "a projection, not a subset: the preimage of every payment that has one (filter_map over "
+                                               "Option<preimage>); payments without a preimage have nothing to store in this field"}
+_DROPPING = ("::filter(", "::filter_map(", "::skip(", "::take(", "::step_by(", "::skip_while(", "::take_while(", "::retain(")
+
+
 def _agg_from(ctx, b, fv, adt_name, want, src_owner, params=False):
     """the aggregate `adt_name` built in b fills each field in `want` from the source field/param of that name"""
     n = 0
@@ -300,6 +310,16 @@ def _agg_from(ctx, b, fv, adt_name, want, src_owner, params=False):
             ctx.ob("R11.2", ok, f"{b.name}/slot/{fld}",
                    f"`{b.name}` fills {adt_name.rsplit('::', 1)[-1]}.{fld} from `{render(e)[:100]}` (expected {src})",
                    where=f"{b.file}:{s.line}", sample=f"{fld} <- {src}")
+            # a stored collection is the whole live collection: built with map / cloned / collect, never with an adaptor
+            # that drops elements
+            txt = render(e)
+            dropped = [d_ for d_ in _DROPPING if d_ in txt]
+            if (adt_name.rsplit("::", 1)[-1], fld) in _PARTIAL_OK:
+                dropped = []
+            ctx.ob("R11.2", not dropped, f"{b.name}/slot/{fld}/whole",
+                   f"`{b.name}` stores only part of {src} in {adt_name.rsplit('::', 1)[-1]}.{fld} (built with {dropped}): the "
+                   "entries left out are missing after a restart (a monitor, a listener, an invoice the running signer still has)",
+                   where=f"{b.file}:{s.line}", sample=f"{fld} <- all of {src}")
     ctx.floor("R11.2", f"{adt_name} literal in {b.name[-50:]}", n, 1)
 
 
@@ -521,3 +541,10 @@ def shared_restore(ctx, rid, why):
     r112(_report.renamed(ctx, {"R11.2": rid}))
     ctx.rule_text[rid] = ("restart clause: " + why + " Every persisted field of channel entry (setup, enforcement state), node "
                           "state, tracker and monitors is serialised and restored into the same slot (same obligations as C11 R11.2).")
+
+
+def r118(ctx):
+    """the restored monitors are the stored ones (C14 R14.9)"""
+    from rules import C14 as _c14
+    from engine import report as _report
+    _c14.r149(_report.renamed(ctx, {"R14.9": "R11.8"}))
